@@ -241,6 +241,15 @@ CLAIMED = {
         technique="TLA+ abstract-domain model checking (TLC) + concretisation on real autograd + directional finite-difference exploration",
         design_ref="4/C30",
     ),
+    "C02": dict(
+        level="exploration",
+        text="MPSRun.tla (TDVP mode) models the second-order symmetric sweep (every bond +1 step, every interior site -1 step), bath stacks, centre and one fill per step and is model-checked; hook traces of real MPSBackend.run() executions over stratified scenarios "
+             "(Rydberg / XY, atoms, waveforms, phases, DMM, SLM, dt / evaluation classes, precision, bond cap, reordering, initial states) are validated by MPSRunTrace.tla with atoms from the dense reference: the drive row written into the MPO equals the reference row of that step in SITE order "
+             "(values at the point of use), the interaction matrix equals the register-derived one in site order, observables equal exact piecewise-constant evolution within the precision budget, results come back in register order.",
+        note="Budget 5*steps*2(N-1)*precision + 1e-6 + 3*|emu(dt)-emu(dt/2)| capped at 2e-3 (TDVP projection error is dt-dependent); XY uses the first (C3) interaction slice; dense reference limits N <= 8; sampled, not proved.",
+        technique="TLA+ model checking of the sweep machine (TLC) + TLC trace validation of real runs with reference-computed atoms",
+        design_ref="4/C02",
+    ),
 }
 PENDING_REASON = "check not built yet in this round (planned in DESIGN.md section 4); not claimed until it runs"
 NOT_APPLICABLE = {}
